@@ -10,6 +10,8 @@ PRIMS = {  # library primitives: name -> (number of inputs, constructor argument
     'Buf': 1, 'Not': 1, 'And2': 2, 'Or2': 2, 'Xor2': 2, 'Nand2': 2, 'Nor2': 2, 'Constant': 0, 'Reg': 1, 'Mux2': 3, 'Sequence': 0,
 }
 
+STRUCT_CLS = {'Nand2', 'Nor2', 'Xor2'}     # library "leaves" of the plan language that are structural (driver is a primitive inside)
+
 _CLS = {}
 
 
@@ -93,11 +95,12 @@ class Model:
         self.wires[wid] = dict(scope=sid, name=name, width=width, kind=kind, driver=None, reg=True)
         return False
 
-    def _new_child(self, sid, name, cid):
+    def _new_child(self, sid, name, cid, prim=False, ins=(), outs=()):
         if name in self.child_names[sid]:
             return True
         self.child_names[sid][name] = cid
-        self.children[cid] = dict(scope=sid, name=name)
+        # prim: the object's own ports register as sink/source; ins/outs: wires its own in/out ports are attached to
+        self.children[cid] = dict(scope=sid, name=name, prim=prim, ins=list(ins), outs=list(outs))
         return False
 
     def _half_child(self, cid):
@@ -134,7 +137,7 @@ class Model:
         for wid in op['ins'] + op['outs'] + op.get('inouts', []):
             if self.wires[wid]['kind'] != 'wire':
                 return None, None
-        if self._new_child(op['scope'], op['name'], op['cid']):
+        if self._new_child(op['scope'], op['name'], op['cid'], op['cls'] not in STRUCT_CLS, op['ins'], op['outs']):
             return True, path
         r = self._drive(op['outs'] + op.get('inouts', []), op['cid'])
         if r == 'unjudged':
@@ -145,7 +148,8 @@ class Model:
         return False, path
 
     def op_cat(self, op, path):
-        if self._new_child(op['scope'], op['name'], op['cid']):
+        w_of = lambda n: op['bind'].get(n) or op['new'][n]
+        if self._new_child(op['scope'], op['name'], op['cid'], bool(op.get('prim')), [w_of(n) for n in op.get('insn', [])], [w_of(n) for n in op['outs']]):
             return True, path
         for mkname, width in op['mkseq']:
             if mkname in op['bind']:
@@ -224,15 +228,39 @@ class Model:
 
     def op_ifleaf(self, op, path):
         f = self.ifaces[op['iid']]
-        if self._new_child(op['scope'], op['name'], op['cid']):
-            return True, path
         driven = f['s2s'] if op['role'] == 'source' else f['k2s']
+        read = f['k2s'] if op['role'] == 'source' else f['s2s']
+        if self._new_child(op['scope'], op['name'], op['cid'], True, read, driven):
+            return True, path
         r = self._drive(list(driven), op['cid'])
         if r == 'unjudged':
             return None, None
         if r is not None:
-            return True, path     # the leaf itself was fully constructed before addInterface... raised: it stays judged
+            # the leaf itself was fully constructed before addInterface... raised: it stays judged, with the ports that
+            # existed when the call was refused (source: out ports come first; sink: the s2s in ports come first)
+            c = self.children[op['cid']]
+            c['outs'] = list(driven[:r])
+            c['ins'] = [] if op['role'] == 'source' else list(read)
+            return True, path
         return False, path
+
+
+    def op_disconnect(self, op, path):
+        """disconnectWireFromLogicObject(w, obj): a primitive whose own out port is the source of w releases the wire (a new
+        driver may follow); a primitive reading w is detached; anything else (structural block, unrelated object) is refused
+        with 'wire and object are not connected' and the source stays"""
+        w = self.wires[op['wid']]
+        c = self.children[op['cid']]
+        if w['kind'] != 'wire' or w['driver'] == HALF:
+            return None, None
+        if c['prim'] and op['wid'] in c['outs'] and isinstance(w['driver'], tuple) and w['driver'][0] == op['cid']:
+            w['driver'] = None
+            c['outs'].remove(op['wid'])
+            return False, path
+        if c['prim'] and op['wid'] in c['ins']:
+            c['ins'].remove(op['wid'])
+            return False, path
+        return True, path
 
 
 class Abort(BaseException):
@@ -287,6 +315,8 @@ class Exec:
         else:
             c = getattr(p, cls)(s, op['name'], *(i + o))
         self.children[op['cid']] = c
+        if c.isPrimitive() != (cls not in STRUCT_CLS):
+            self.notes.append('the plan language believes %s is %s' % (cls, 'structural' if cls in STRUCT_CLS else 'primitive'))
         ports = list(c.outPorts) + list(c.inOutPorts)
         for wid, port in zip(op['outs'] + op.get('inouts', []), ports):
             if c.isPrimitive():
@@ -320,6 +350,8 @@ class Exec:
             if seq != [list(x) for x in op['mkseq']][:len(seq)]:
                 self.notes.append('catalogue recipe %s asked for other wires than the plan recorded' % op['entry'])
         self.children[op['cid']] = cont
+        if 'prim' in op and cont.children['d'].isPrimitive() != bool(op['prim']):
+            self.notes.append('catalogue recipe %s: primitive/structural differs from what the plan recorded' % op['entry'])
         for n in op['outs']:
             wid = op['bind'].get(n) or op['new'][n]
             self.drv[wid] = self._inside(self.wires[wid].getSource(), cont, op['entry'])
@@ -333,6 +365,12 @@ class Exec:
                 self.run(inner, path + (j,))
         c = classes()['HWrap'](s, op['name'], [self.wires[x] for x in op['ins']], [self.wires[x] for x in op['outs']], body)
         self.children[op['cid']] = c
+
+    def op_disconnect(self, op, path):
+        obj = self.children[op['cid']]
+        if op.get('inner'):
+            obj = obj.children['d']         # the catalogue block inside its container
+        self.py4hw.disconnectWireFromLogicObject(self.wires[op['wid']], obj)
 
     def op_rename(self, op, path):
         self.wires[op['wid']].rename(op['new'])
